@@ -1,7 +1,7 @@
 (* C02, round 3: the dictionary a frame is decoded with WHEN FRAMES NAME A DICTIONARY ID - executable model of
    dctx->ddict, dctx->dictUses, dctx->dictID, dctx->refMultipleDDicts and dctx->ddictSet of a ZSTD_DCtx
-   (lib/decompress/zstd_decompress.c as of /repo 3b19e13, i.e. after the fixes 70fa663, a24560c, d50580e, b70602d, 9260ac3,
-   8de9dc9, a891479): ZSTD_clearDict, ZSTD_getDDict, ZSTD_DCtx_loadDictionary*, ZSTD_DCtx_refDDict (adds to the set when
+   (lib/decompress/zstd_decompress.c as of /repo 6a84803, i.e. after the fixes 70fa663, a24560c, d50580e, b70602d, 9260ac3,
+   8de9dc9, a891479, d0ddbff, 3de6278, b15fdb6): ZSTD_clearDict, ZSTD_getDDict, ZSTD_DCtx_loadDictionary*, ZSTD_DCtx_refDDict (adds to the set when
    ZSTD_d_refMultipleDDicts is on), ZSTD_DCtx_refPrefix, ZSTD_DCtx_setParameter(ZSTD_d_refMultipleDDicts), ZSTD_DCtx_reset,
    ZSTD_DCtx_selectFrameDDict, the dictID check of ZSTD_decodeFrameHeader, the frame start of ZSTD_decompressStream
    (zdss_loadHeader: select, ZSTD_getDDict, ZSTD_decompressBegin_usingDDict, ZSTD_decodeFrameHeader) and the frame loop of
@@ -20,17 +20,18 @@ Variable did : D -> N.                    (* ZSTD_getDictID_fromDDict ; 0 = raw 
 Record ds := {
   ds_dict : option D;                     (* dctx->ddict *)
   ds_uses : duses;                        (* dctx->dictUses *)
+  ds_local : bool;                        (* dctx->ddict == dctx->ddictLocal : the context's own copy (loadDictionary / refPrefix) *)
   ds_mdd : bool;                          (* dctx->refMultipleDDicts == ZSTD_rmd_refMultipleDDicts *)
   ds_set : list D;                        (* dctx->ddictSet ([] = NULL) *)
   ds_loaded : N }.                        (* dctx->dictID : the ID of the dictionary whose tables and content are loaded *)
 
-Definition ds_new : ds := {| ds_dict := None; ds_uses := DontUse; ds_mdd := false; ds_set := []; ds_loaded := 0 |}.
+Definition ds_new : ds := {| ds_dict := None; ds_uses := DontUse; ds_local := false; ds_mdd := false; ds_set := []; ds_loaded := 0 |}.
 
-Definition with_dict (s : ds) (o : option D) (u : duses) : ds :=
-  {| ds_dict := o; ds_uses := u; ds_mdd := ds_mdd s; ds_set := ds_set s; ds_loaded := ds_loaded s |}.
+Definition with_dict (s : ds) (o : option D) (u : duses) (loc : bool) : ds :=
+  {| ds_dict := o; ds_uses := u; ds_local := loc; ds_mdd := ds_mdd s; ds_set := ds_set s; ds_loaded := ds_loaded s |}.
 Definition with_loaded (s : ds) (n : N) : ds :=
-  {| ds_dict := ds_dict s; ds_uses := ds_uses s; ds_mdd := ds_mdd s; ds_set := ds_set s; ds_loaded := n |}.
-Definition clear_dict (s : ds) : ds := with_dict s None DontUse.        (* ZSTD_clearDict *)
+  {| ds_dict := ds_dict s; ds_uses := ds_uses s; ds_local := ds_local s; ds_mdd := ds_mdd s; ds_set := ds_set s; ds_loaded := n |}.
+Definition clear_dict (s : ds) : ds := with_dict s None DontUse false.        (* ZSTD_clearDict *)
 
 (* ZSTD_DDictHashSet_getDDict / _addDDict *)
 Definition set_get (l : list D) (id : N) : option D :=
@@ -40,23 +41,25 @@ Definition set_add (l : list D) (d : D) : list D :=
 
 Definition set_active (s : ds) : bool := ds_mdd s && negb (match ds_set s with [] => true | _ => false end).
 
-(* ZSTD_DCtx_selectFrameDDict (called when refMultipleDDicts && ddictSet) : needs a CURRENT dictionary - dctx->ddict set and
-   dictUses != ZSTD_dont_use (fix a891479 : a single-use prefix that has served leaves its pointer behind until the next
-   ZSTD_getDDict ; it used to count, finding C02-dstream-stale-prefix-pointer-selects-ddict) *)
+(* ZSTD_DCtx_selectionApplies : the selection among the referenced DDicts needs a CURRENT dictionary that is a REFERENCED DDict -
+   dctx->ddict set, dictUses != ZSTD_dont_use (fix a891479 : a single-use prefix that has served leaves its pointer behind until the
+   next ZSTD_getDDict ; it used to count, finding C02-dstream-stale-prefix-pointer-selects-ddict) and ddict != ddictLocal (fix d0ddbff :
+   a dictionary loaded into the context, or a pending prefix, is never replaced).  The same test guards the look-up in the frame
+   loop of ZSTD_decompressMultiFrame (fix 3de6278) *)
 Definition live (s : ds) : bool := match ds_uses s with DontUse => false | _ => true end.
+Definition applies (s : ds) : bool :=
+  match ds_dict s with Some _ => live s && negb (ds_local s) | None => false end.
+(* ZSTD_DCtx_selectFrameDDict (called when refMultipleDDicts && ddictSet) *)
 Definition select (s : ds) (id : N) : ds :=
-  if set_active s && live s then
-    match ds_dict s with
-    | Some _ => match set_get (ds_set s) id with Some f => with_dict s (Some f) UseIndef | None => s end
-    | None => s
-    end
+  if set_active s && applies s then
+    match set_get (ds_set s) id with Some f => with_dict s (Some f) UseIndef false | None => s end
   else s.
 
 (* the selection as it was before a891479 (dctx->ddict alone) : kept for the refutation example in DictIdProofs.v only *)
 Definition select_stale (s : ds) (id : N) : ds :=
   if set_active s then
     match ds_dict s with
-    | Some _ => match set_get (ds_set s) id with Some f => with_dict s (Some f) UseIndef | None => s end
+    | Some _ => match set_get (ds_set s) id with Some f => with_dict s (Some f) UseIndef false | None => s end
     | None => s
     end
   else s.
@@ -66,7 +69,7 @@ Definition get_dd (s : ds) : ds * option D :=
   match ds_uses s with
   | DontUse => (clear_dict s, None)
   | UseIndef => (s, ds_dict s)
-  | UseOnce => (with_dict s (ds_dict s) DontUse, ds_dict s)
+  | UseOnce => (with_dict s (ds_dict s) DontUse (ds_local s), ds_dict s)
   end.
 
 Definition id_of (o : option D) : N := match o with Some d => did d | None => 0 end.
@@ -88,21 +91,31 @@ Inductive iop :=
    accepted (true) or dictionary_wrong (false) *)
 Definition fres := (option D * N * bool)%type.
 
-(* zdss_loadHeader for a Zstandard frame *)
+(* zdss_loadHeader for a Zstandard frame (not taking the single-pass shortcut; with the shortcut the dictionary is fetched by
+   ZSTD_getDDict before the frame is decoded : the same state after an accepted frame).  A single-use dictionary is only looked at
+   (singleUseDictTaken) and marked used once the frame start has succeeded (fix b15fdb6) : a refused frame leaves the prefix pending *)
 Definition frame_step (s : ds) (id : N) : ds * fres :=
   let s1 := select s id in                       (* header complete : ZSTD_DCtx_selectFrameDDict *)
-  let '(s2, o) := get_dd s1 in                   (* ZSTD_decompressBegin_usingDDict(zds, ZSTD_getDDict(zds)) *)
-  let s3 := select (with_loaded s2 (id_of o)) id in   (* ZSTD_decodeFrameHeader : select again, then the check *)
-  (s3, (o, id, id_ok (id_of o) id)).
+  match ds_uses s1 with
+  | UseOnce =>
+      let o := ds_dict s1 in                     (* ZSTD_decompressBegin_usingDDict(zds, zds->ddict) *)
+      let s3 := select (with_loaded s1 (id_of o)) id in   (* ZSTD_decodeFrameHeader : select again, then the check *)
+      let ok := id_ok (id_of o) id in
+      (if ok then with_dict s3 (ds_dict s3) DontUse (ds_local s3) else s3, (o, id, ok))
+  | _ =>
+      let '(s2, o) := get_dd s1 in               (* ZSTD_decompressBegin_usingDDict(zds, ZSTD_getDDict(zds)) *)
+      let s3 := select (with_loaded s2 (id_of o)) id in
+      (s3, (o, id, id_ok (id_of o) id))
+  end.
 
 (* the frame loop of ZSTD_decompressMultiFrame ; [cur] = its local variable ddict ; stops at the first refused frame *)
 Fixpoint oneshot_loop (s : ds) (cur : option D) (ids : list N) : ds * list fres :=
   match ids with
   | [] => (s, [])
   | id :: r =>
-      let cur' := match cur, ds_dict s with
-                  | Some _, Some _ => if set_active s then match set_get (ds_set s) id with Some f => Some f | None => cur end else cur
-                  | _, _ => cur
+      let cur' := match cur with
+                  | Some _ => if set_active s && applies s then match set_get (ds_set s) id with Some f => Some f | None => cur end else cur
+                  | None => cur
                   end in
       let s1 := select (with_loaded s (id_of cur')) id in
       let ok := id_ok (id_of cur') id in
@@ -112,17 +125,17 @@ Fixpoint oneshot_loop (s : ds) (cur : option D) (ids : list N) : ds * list fres 
 
 Definition ds_step (s : ds) (op : iop) : ds * list fres :=
   match op with
-  | ILoad d => (match d with Some _ => with_dict s d UseIndef | None => clear_dict s end, [])
+  | ILoad d => (match d with Some _ => with_dict s d UseIndef true | None => clear_dict s end, [])
   | IRefDDict d =>
       (match d with
-       | Some x => {| ds_dict := d; ds_uses := UseIndef; ds_mdd := ds_mdd s;
+       | Some x => {| ds_dict := d; ds_uses := UseIndef; ds_local := false; ds_mdd := ds_mdd s;
                       ds_set := if ds_mdd s then set_add (ds_set s) x else ds_set s; ds_loaded := ds_loaded s |}
        | None => clear_dict s
        end, [])
-  | IRefPrefix d => (with_dict s d UseOnce, [])
-  | ISetMulti b => ({| ds_dict := ds_dict s; ds_uses := ds_uses s; ds_mdd := b; ds_set := ds_set s; ds_loaded := ds_loaded s |}, [])
+  | IRefPrefix d => (with_dict s d UseOnce (match d with Some _ => true | None => false end), [])
+  | ISetMulti b => ({| ds_dict := ds_dict s; ds_uses := ds_uses s; ds_local := ds_local s; ds_mdd := b; ds_set := ds_set s; ds_loaded := ds_loaded s |}, [])
   | IResetSession => (s, [])
-  | IResetParams => ({| ds_dict := None; ds_uses := DontUse; ds_mdd := false; ds_set := []; ds_loaded := ds_loaded s |}, [])
+  | IResetParams => ({| ds_dict := None; ds_uses := DontUse; ds_local := false; ds_mdd := false; ds_set := []; ds_loaded := ds_loaded s |}, [])
   | IFrame id => let '(s', r) := frame_step s id in (s', [r])
   | ISkippable => (s, [])
   | IOneShot ids => let '(s1, o) := get_dd s in oneshot_loop s1 o ids
